@@ -172,6 +172,13 @@ fn fault_space(ctx: &mut Ctx, s: &Sample, p: &mut Prng, other: &Sample, small_s:
     if s.id.is_some() && s.id_str != DEFAULT_ID {
         probe(ctx, s, &s.lpk, &s.pk, None, DEFAULT_ID, &s.msg, &s.sig, "id_default_instead", false);
     }
+    // IDs that differ only by surrounding white space are different IDs
+    for (k, alt) in [format!("{} ", s.id_str), format!(" {}", s.id_str), format!("{}\n", s.id_str), format!("\t{}", s.id_str), s.id_str.trim().to_string()].into_iter().enumerate() {
+        if alt != s.id_str && alt.len() < 8000 {
+            let _ = k;
+            probe(ctx, s, &s.lpk, &s.pk, Some(leak(alt.clone())), &alt, &s.msg, &s.sig, "id_changed_by_whitespace", false);
+        }
+    }
     // another ID of the SAME length (16 bytes like the default ID, and the signer's own length): ENTL alone does not
     // identify the signer
     {
@@ -246,7 +253,7 @@ pub fn run(ctx: &mut Ctx) {
     for (n, ok) in r2::selftest() {
         ctx.selftest(&n, ok);
     }
-    ctx.require(&["valid_accepted", "bitflip_r", "bitflip_s", "r=0", "s=0", "r=n", "s=n", "s=n+1", "r=2^256-1", "s=2^256-1", "s=n-r", "sG+tP=infinity", "swapped_r_s", "s+n", "s_plus_n_alias", "msg_extended", "msg_bitflip", "id_changed", "key_changed", "len<64", "len>64", "random_pair", "openssl_made", "digest:t=0_equation_satisfied", "digest:valid", "digest:bitflip", "near_miss_r_consistent_s", "id_changed_same_length", "alt_encoding_of_valid_signature", "sample_with_empty_explicit_id"]);
+    ctx.require(&["valid_accepted", "bitflip_r", "bitflip_s", "r=0", "s=0", "r=n", "s=n", "s=n+1", "r=2^256-1", "s=2^256-1", "s=n-r", "sG+tP=infinity", "swapped_r_s", "s+n", "s_plus_n_alias", "msg_extended", "msg_bitflip", "id_changed", "key_changed", "len<64", "len>64", "random_pair", "openssl_made", "digest:t=0_equation_satisfied", "digest:valid", "digest:bitflip", "near_miss_r_consistent_s", "id_changed_same_length", "alt_encoding_of_valid_signature", "sample_with_empty_explicit_id", "id_changed_by_whitespace"]);
     let c = r2::curve();
     // --- digest level (hook `verif_verify_digest`): clauses no message can be made to reach. (a) t = r + s = 0 mod n with
     // e chosen so that the remaining equation holds (a verifier without the t check accepts); (b) valid and tampered
